@@ -1226,34 +1226,49 @@ fn named_partial_type(input: Span) -> IResult<Span, Type> {
     )(input)
 }
 
-/// The parenthesised process forms `(@-> type)` and `(@type -> type)` (the first arm of
-/// [`process_type`]).
-fn paren_process_type(input: Span) -> IResult<Span, Type> {
-    map(
-        delimited(
-            char('('),
-            alt((
-                map(
-                    preceded(tuple((char('@'), ws0, tag("->"), ws1)), base_type),
-                    |return_type| (None, Some(return_type)),
-                ),
-                map(
-                    preceded(
-                        char('@'),
-                        separated_pair(base_type, tuple((ws1, tag("->"), ws1)), base_type),
-                    ),
-                    |(receive_type, return_type)| (Some(receive_type), Some(return_type)),
-                ),
-            )),
-            char(')'),
-        ),
-        |(receive_type, return_type): (Option<Type>, Option<Type>)| {
-            Type::Process(ProcessType {
-                receive_type: receive_type.map(Box::new),
-                return_type: return_type.map(Box::new),
-            })
+/// The parenthesised process forms `(@-> type)` and `(@type -> type)`, continued from the FIRST
+/// FIELD that [`paren_type`] has already read. Such a form starts with `(@` (nothing in between),
+/// so the field list began with `type_definition` on `@...`, which can only be the bare process type
+/// `@` / `@type` (possibly continued by `&` / `|`, but then no `->` follows): the receive type is
+/// that field's, and the arrow and the return type follow where the field ended. Parsing the receive
+/// type again (as the separate `(@type -> type)` alternative did) took two parses per nesting level
+/// of `(@(@(@'a -> 'r) -> 'r) -> 'r)`.
+fn paren_process_from_first<'a>(
+    after_open: Span<'a>,
+    first: Option<(&FieldType, Span<'a>)>,
+) -> Option<(Span<'a>, Type)> {
+    if !after_open.fragment().starts_with('@') {
+        return None;
+    }
+    let (
+        FieldType::Field {
+            name: None,
+            type_def:
+                Type::Process(ProcessType {
+                    receive_type,
+                    return_type: None,
+                }),
         },
-    )(input)
+        first_end,
+    ) = first?
+    else {
+        return None;
+    };
+    // `(@-> type)`: optional whitespace before the arrow; `(@type -> type)`: at least one.
+    let arrow: IResult<Span, _> = match receive_type {
+        None => nom_value((), tuple((ws0, tag("->"), ws1)))(first_end),
+        Some(_) => nom_value((), tuple((ws1, tag("->"), ws1)))(first_end),
+    };
+    let (rest, _) = arrow.ok()?;
+    let (rest, return_type) = base_type(rest).ok()?;
+    let (rest, _) = char::<Span, nom::error::Error<Span>>(')')(rest).ok()?;
+    Some((
+        rest,
+        Type::Process(ProcessType {
+            receive_type: receive_type.clone(),
+            return_type: Some(Box::new(return_type)),
+        }),
+    ))
 }
 
 /// `@` with an optional receive type, no arrow (the second arm of [`process_type`]).
@@ -1268,7 +1283,7 @@ fn at_process_type(input: Span) -> IResult<Span, Type> {
 
 /// Everything a type can be that starts with `(`: an unnamed partial type `(x: type, ...)` / `()`,
 /// a parenthesised process type `(@type -> type)`, or grouping parentheses `(type)`, tried in
-/// that order, exactly as the separate alternatives of `base_type` did. The unnamed partial type
+/// the order the separate alternatives of the caller did. The unnamed partial type
 /// and the grouping read the same text, so the content is parsed ONCE: trying them one after the
 /// other parsed every nesting level twice, i.e. took time exponential in the nesting depth
 /// (`(((('int))))`, `(#(#'a -> 'b) -> 'c)`, `(('a | 'b) | 'c)`).
@@ -1317,30 +1332,38 @@ fn paren_type(input: Span, group_before_process: bool) -> IResult<Span, Type> {
             }),
         ));
     }
-    // Grouping parentheses `( type )` around the single positional field.
-    let mut group = None;
+    // Grouping parentheses `( type )` around the single positional field: where they close.
+    let mut group_end = None;
     if let (Some(first_end), [FieldType::Field { name: None, .. }]) = (first_end, &fields[..]) {
         let (type_start, _) = ws0(after_open)?;
         let same_start = type_start.location_offset() == content.location_offset()
             || content.fragment().starts_with('|');
-        if same_start
-            && let Ok((rest, _)) = pair(ws0, char(')'))(first_end)
-            && let Some(FieldType::Field { type_def, .. }) = fields.pop()
-        {
-            group = Some((rest, type_def));
+        if same_start && let Ok((rest, _)) = pair(ws0, char(')'))(first_end) {
+            group_end = Some(rest);
         }
     }
+    let take_group = |fields: &mut Vec<FieldType>, rest| match fields.pop() {
+        Some(FieldType::Field { type_def, .. }) => Some((rest, type_def)),
+        _ => None,
+    };
     // The grouping and the parenthesised process form are tried in the order the caller's
     // alternatives had them (`base_type`: process form first; function input/output: grouping
     // first). No text is both, so the order cannot be observed; keeping it makes this function the
     // old alternatives verbatim, parsed once.
-    if group_before_process && let Some(result) = group {
+    if group_before_process
+        && let Some(rest) = group_end
+        && let Some(result) = take_group(&mut fields, rest)
+    {
         return Ok(result);
     }
-    if let Ok(result) = paren_process_type(input) {
+    if let Some(result) =
+        paren_process_from_first(after_open, first_end.and_then(|end| Some((fields.first()?, end))))
+    {
         return Ok(result);
     }
-    if let Some(result) = group {
+    if let Some(rest) = group_end
+        && let Some(result) = take_group(&mut fields, rest)
+    {
         return Ok(result);
     }
     Err(nom::Err::Error(nom::error::Error::new(
